@@ -3,6 +3,46 @@
 import importlib, json, os, sys
 sys.path.insert(0, "/verif"); sys.path.insert(0, "/repo/src")
 PENDING_REASON = "check not built yet in this session; will be claimed once its module lands"
+TECH = {
+ "C01": ("round-trip and reference-formatter oracle over messages built by construction (Hypothesis) + enumerated warm-schema matrix",
+         "Bounded generated search: every case checks encode == explicit formatter, decode(encode(m)) == m with exact types, re-encode law, and the same through Gateway.send/listen; no proof - confidence comes from ~4k (quick) / 200k (thorough) constructed messages biased to ';' payloads, boundary ids and huge types, and from mutants/seeded changes that it catches."),
+ "C02": ("acceptor reference model (written from the statement) vs MessageSchema.load and Gateway.listen over a field grammar, single-character edits and an enumerated per-field product",
+         "Generated search plus an exhaustive product of per-field class representatives for 0-7 fields x versions; verdict classes (accept / reject / don't-care for odd integer spellings) keep the oracle sound."),
+ "C03": ("stateful history search for non-library exceptions with a recovery probe; exhaustive hostile-payload dictionary x every message type; byte streams on real asyncio stream objects; coverage-guided atheris campaign (thorough)",
+         "Exploration: any exception not derived from AIOMySensorsError escaping Gateway.listen / StreamTransport.read is a violation; after each library error a probe line must still be processed. Dictionary part is exhaustive, the rest sampled."),
+ "C04": ("model-based testing: reference controller in lock-step with a real Gateway over small-alphabet histories (Hypothesis) + exhaustive histories up to length 3/4 + queue-vs-line-by-line differential",
+         "Exploration with an exhaustive core (all histories <= 4 over 15 lines x 5 versions in the thorough tier): outcome class, error attributes, yielded fields and a deep registry snapshot after every step."),
+ "C05": ("exhaustive version-string grid and type-gate enumeration against spec tables spelled in the harness + generated report histories with behavioural probes of the rules in force",
+         "The mapping grid (1050 strings x 3 delivery paths) and the type gate (every type -3..40 per version) are enumerated completely; histories, sessions and listener modes are sampled."),
+ "C06": ("model-based testing of the multiset of writes per received line (reference controller), time reply checked under generated fixed-offset time zones with a clock shim",
+         "Exploration: per step, writes other than presentation requests must equal the specified reactions plus the version-query rule; sampled histories over registry states, metric flag, zones, listener modes."),
+ "C07": ("model-based testing of the sleep buffer through writes only (reference controller), episode-structured and free histories with weighted operations",
+         "Exploration: parked state is never read, only inferred from what is written at sends and wakes; sampled sequential histories over 3 nodes x 2 children x 2 types and 5 versions."),
+ "C08": ("fault enumeration: complete product of parked sets x wake sequences x failing write-attempt subsets, plus every schedule x fault position of small racing configurations",
+         "Thorough tier enumerates the whole bounded fault space (100k runs) and is exhaustive inside the stated bounds; invariant oracle over the run: reported, nothing lost, nothing repeated, nothing released to the wrong node."),
+ "C09": ("schedule search: stateless depth-first enumeration of every interleaving at transport-write suspension points for enumerated/generated configurations; history-invariant oracle on the write log",
+         "Exhaustive over all schedules of every configuration with <= 4 parked commands and <= 3 senders (2.6M schedules in the thorough tier); sound for suspension points at Transport.write (see assumptions)."),
+ "C10": ("model-based testing of presentation-request writes (outstanding-set model) with injected write faults on the requests",
+         "Exploration: only type-19 writes are compared, per step, against the episode model; sampled histories over 3 nodes, 5 versions, fault subsets, listener modes."),
+ "C11": ("generated and enumerated registry shapes x id-request sequences against a freshness/range/registration-order oracle (checked inside the transport at write time)",
+         "Exploration with exhaustive families ({k}, {1..k}, {0..k} for every k, brim-filling runs); the allocation policy itself is not fixed, any fresh id in range is accepted."),
+ "C12": ("three-outcome oracle for every generated send (all commands, states, buffering flags), send histories with debts settled at wakes, and all schedules of small send-vs-flush races",
+         "Exploration plus an enumerated command x type x destination x buffering matrix per version; a send may end only in write-now, held-until-wake (verified at the wake) or a library error."),
+ "C13": ("round-trip oracle on real files: registries reached by generated message histories and directly constructed ones, legacy-layout equivalence, multi-MiB files, ASCII-locale child process",
+         "Exploration: save then load into an empty registry must reproduce every listed attribute; sampled, with enumerated size and locale cases."),
+ "C14": ("generated file contents (prefixes, structural JSON mutations, arbitrary JSON, raw bytes, deep/long documents, special paths) against the 'only PersistenceReadError' oracle; atheris campaign (thorough)",
+         "Exploration: any other exception type from Persistence.load is a violation, bucketed by type and innermost package frame; enumerated single-field mutations of both layouts, sampled otherwise."),
+ "C15": ("crash-point enumeration: fork a child per file-system operation (and per partial write) of a save, kill it with os._exit, load what is left; over generated (old, new) registry pairs",
+         "Fault enumeration, complete over the operations a save performs on the scratch directory for each generated pair; the known in-place-truncation finding is excluded by signature and enumeration continues behind it."),
+ "C16": ("fault/time enumeration on a deterministic virtual-time event loop: transport kinds x faults x initial files x exit moments k x time jumps T, second sessions; generated T/k beyond",
+         "Fault enumeration: the k/fault/kind/file product is enumerated (3.4k runs quick); virtual time makes the 15-minute cadence and every exit moment relative to the saver reachable deterministically."),
+ "C17": ("reference line splitter vs StreamTransport.read over generated byte streams x chunkings x read schedules on real asyncio stream objects; socketpair write check; enumerated connect/link faults",
+         "Exploration with an enumerated fault matrix (factories x exception classes x link-loss kinds); reads are compared one by one with the reference splitter."),
+ "C18": ("stateful testing of MQTTClient against a fake broker built on aiomqtt's real MessagesIterator/Message, on a virtual-time loop (a blocked read is detected, not timed out)",
+         "Exploration: publish arguments, subscription coverage (own '+' matcher), arrival-order delivery, echo law, error surfacing, reconnect sessions; sampled histories with enumerated prefix x node cases."),
+ "C19": ("differential testing: two real gateways pinned to an (older, newer) version pair fed the same generated history; step-by-step comparison of outcome, writes, registry",
+         "Exploration over all 10 ordered version pairs; the alphabet is restricted to the older table and to the statement's exclusions, so any difference is a violation."),
+}
 NOTES = {}
 props = [json.loads(l) for l in open("/verif/properties.jsonl")]
 checks, na = [], []
@@ -18,9 +58,9 @@ for p in props:
         "evidence_file": f"/verif/evidence/{pid}.json",
         "replay_cmd_template": f"./check {pid} --replay {{path}}",
         "engine": getattr(mod, "ENGINE", "hypothesis-generated-search"),
-        "level_claimed": {"category": mod.LEVEL, "text": mod.LEVEL_TEXT if hasattr(mod, "LEVEL_TEXT") else mod.RULE, "design_ref": f"DESIGN.md section {mod.DESIGN_REF}"},
+        "level_claimed": {"category": mod.LEVEL, "text": TECH[pid][1], "design_ref": f"DESIGN.md section {mod.DESIGN_REF} and 8"},
         "level_note": "; ".join(getattr(mod, "ASSUMPTIONS", [])) or "none",
-        "technique": getattr(mod, "TECHNIQUE", "property-based testing: generated inputs against an explicit oracle"),
+        "technique": TECH[pid][0],
     })
 man = {
     "version": 1,
@@ -35,6 +75,12 @@ man = {
     "engines": [
         {"name": "hypothesis-generated-search", "path": "/verif/vf/runner.py", "serves_properties": [c["property_id"] for c in checks],
          "kind_free_text": "Hypothesis 6.168 strategies (seeded by VERIF_SEED, sharded over processes), bounded exhaustive enumeration where the space is small, collect-bucket-shrink, JSON replay files"},
+        {"name": "atheris-campaign", "path": "/verif/vf/fuzzrun.py", "serves_properties": ["C03", "C14"],
+         "kind_free_text": "atheris 3.1 (libFuzzer) targets fuzz/c03_stream.py and fuzz/c14_file.py with the property oracle inside the target; thorough tier only; crashing inputs are replayed through run_case without atheris"},
+        {"name": "schedule-and-fault-enumeration", "path": "/verif/vf/props/c09.py", "serves_properties": ["C08", "C09", "C12", "C03"],
+         "kind_free_text": "gated transport + stateless DFS over scheduler choices (start task / release write / fail write)"},
+        {"name": "virtual-time-loop", "path": "/verif/vf/vloop.py", "serves_properties": ["C16", "C18"],
+         "kind_free_text": "asyncio SelectorEventLoop whose clock jumps to the next timer, inline executor; deterministic"},
     ],
     "checks": checks,
     "not_applicable": na,
